@@ -729,7 +729,8 @@ func (e *Env) callExpr(n *ast.CallExpr) Val {
 		case v.Ty != nil:
 			if mt, ok := v.Ty.Underlying().(*types.Map); ok {
 				_, _, _, _, nn, ns := u.mapComps(mt)
-				return e.ival(sel(u.comp(e.heap, nn, ns), v.T))
+				// len of a nil map is 0 (as in the instruction semantics)
+				return e.ival(ite(eq(v.T, "0"), "0", sel(u.comp(e.heap, nn, ns), v.T)))
 			}
 		}
 		return e.fail("len of %s", v.S)
@@ -829,6 +830,48 @@ func (e *Env) callExpr(n *ast.CallExpr) Val {
 			nm = "sbits"
 		}
 		return e.ival(u.bitsLiteral(nm, arr, iadd(off, bi.T), uint(pl.Uint64()), uint(nl.Uint64())))
+	case "rangepos", "rangelen", "rangekey":
+		// the n-th `range` over a map in this function (source order): position of its iterator,
+		// number of keys it produces, and the j-th key it produces (see execRange)
+		if e.fr == nil {
+			return e.fail("%s outside a function body", name)
+		}
+		lit, ok := n.Args[0].(*ast.BasicLit)
+		if !ok {
+			return e.fail("%s needs a literal ordinal", name)
+		}
+		ord, _ := strconv.Atoi(lit.Value)
+		var rg *ssa.Range
+		cnt := 0
+		for _, b := range e.fr.fn.Blocks {
+			for _, ins := range b.Instrs {
+				if r, isR := ins.(*ssa.Range); isR {
+					if _, isM := r.X.Type().Underlying().(*types.Map); isM {
+						cnt++
+						if cnt == ord {
+							rg = r
+						}
+					}
+				}
+			}
+		}
+		if rg == nil {
+			return e.fail("%s(%d): the function has only %d map range loops", name, ord, cnt)
+		}
+		itv, ok := e.fr.vals[rg]
+		if !ok || itv.T == "0" {
+			return e.fail("%s(%d): the iterator is not modelled here", name, ord)
+		}
+		mt := rg.X.Type().Underlying().(*types.Map)
+		keyF, _, _ := u.rangeFuns(mt.Key())
+		switch name {
+		case "rangepos":
+			return e.ival(sel(u.comp(e.heap, "RangePos", "(Array Int Int)"), itv.T))
+		case "rangelen":
+			return e.ival(app("rangelen", itv.T))
+		}
+		j := arg(1)
+		return Val{T: sel(app(keyF, itv.T), j.T), Ty: mt.Key(), S: so.sortOf(mt.Key())}
 	case "stamp":
 		c := arg(0)
 		return Val{T: sel(u.comp(e.heap, "ChStamp", "(Array Int (Array Int Int))"), c.T), Ty: &seqType{elem: intT}, S: "(Array Int Int)"}
@@ -1075,10 +1118,10 @@ func (u *Unit) emitLemma(ax *Axiom) {
 	env := u.newEnv(nil)
 	env.noHeap = true
 	var binders []string
-	for _, p := range ax.Params {
+	for i, p := range ax.Params {
 		bn := p + "!l"
-		binders = append(binders, "("+bn+" Int)")
-		env.vars[p] = Val{T: bn, Ty: intT, S: "Int"}
+		binders = append(binders, "("+bn+" "+ax.Sorts[i]+")")
+		env.vars[p] = lemmaParam(bn, ax.Sorts[i])
 	}
 	body := env.evalBool(ax.Expr)
 	var pats []string
@@ -1092,6 +1135,14 @@ func (u *Unit) emitLemma(ax *Axiom) {
 	u.lemmasUsed[ax.Name] = true
 }
 
+// lemmaParam: a lemma parameter of the given sort (integers, or arrays used as sequences)
+func lemmaParam(term, srt string) Val {
+	if srt == "Int" {
+		return Val{T: term, Ty: intT, S: "Int"}
+	}
+	return Val{T: term, Ty: &seqType{elem: types.Typ[types.Uint8]}, S: srt}
+}
+
 // lemmaObligation: the proof obligation of a lemma.  With "by v" it is proved by
 // strong induction on v: the statement may be assumed for every v' with 0 <= v' < v
 // (for v < 0 that is nothing, so the statement must then hold outright).
@@ -1101,9 +1152,9 @@ func (e *Engine) lemmaObligation(ax *Axiom, prop string) *Oblig {
 	u.lemmaLimit = ax.Index + 1
 	env := u.newEnv(nil)
 	env.noHeap = true
-	for _, p := range ax.Params {
-		c := u.fresh("l_"+p, "Int")
-		env.vars[p] = Val{T: c, Ty: intT, S: "Int"}
+	for i, p := range ax.Params {
+		c := u.fresh("l_"+p, ax.Sorts[i])
+		env.vars[p] = lemmaParam(c, ax.Sorts[i])
 	}
 	goal := env.evalBool(ax.Expr)
 	if ax.By != "" {
